@@ -66,6 +66,6 @@ META = dict(
          "H5RefUint lose half of every array, as derived from the gonum source). Defect found and repaired: sliceSize "
          "dropped the last element of a stepped selection when (stop-start) mod step != 0 (fix 6552b9c).",
     technique="Lean 4 proofs (induction over dimensions/lists, omega/linarith) + regenerated facts (go/ast call graph, "
-              "kernel-evaluated checker) + differential correspondence model vs real code with a dynamic lock monitor",
+              "kernel-evaluated checker) + differential correspondence model vs real code with a dynamic lock monitor + model regenerated from the Go source on every run by a translator (gen_eq_* theorems tie it to the hand-written model)",
 )
 READY = True
